@@ -3,7 +3,7 @@ import dataclasses
 
 from engine import strx, vtime
 from engine.harness import Harness
-from engine.symx import SBool, SNum, all_of
+from engine.symx import SBool, SNum, all_of, any_of
 from engine.vtime import PinnedClock, SDatetime, STimedelta, real_datetime, real_timedelta
 from harness import c07_fp
 from harness import c07_names as N
@@ -198,11 +198,16 @@ def h07_e2e(S, backend="mem"):
             ab, rb = InMemoryBucketBroker(), InMemoryBucketBroker(use_result_bucket=True)
         conn = Connection(mb, ab if bucket else None, rb if store else None)
         await mb.queue_declare("q_1")
-        job = Job("my-job_1", queue="q_1", priority=prio, id_="id-1_A",
-                  deferred_until=S.datetime("deferred_until", now + SEC, Y2100) if deferred else None,
-                  deferred_by=S.timedelta("deferred_by", SEC, HUNDRED_Y) if has_by else None,
-                  retries=S.int("retries", 0, None), timeout=S.timedelta("timeout", SEC, HUNDRED_Y),
-                  ttl=S.timedelta("ttl", SEC, HUNDRED_Y) if has_ttl else None,
+        settings = dict(deferred_until=S.datetime("deferred_until", now - 86400 * SEC, Y2100) if deferred else None,   # may already be over
+                        deferred_by=S.timedelta("deferred_by", SEC, HUNDRED_Y) if has_by else None,
+                        retries=S.int("retries", 0, None), timeout=S.timedelta("timeout", SEC, HUNDRED_Y),
+                        ttl=S.timedelta("ttl", SEC, HUNDRED_Y) if has_ttl else None)
+        out["settings"] = settings
+        if deferred:
+            # already over, or at least a second ahead (a delay of microseconds is over before the consumer looks - RabbitMQ expiry is in ms)
+            du = vtime.dt_us(settings["deferred_until"])
+            S.assume(any_of(du <= now, du >= now + SEC))
+        job = Job("my-job_1", queue="q_1", priority=prio, id_="id-1_A", **settings,
                   args=value, args_ttl=real_timedelta(hours=1) if bucket else None,
                   **({"args_id": "args-of-id-1_A"} if bucket and explicit_args_id else {}),
                   result_id="res-9", result_ttl=S.timedelta("result_ttl", SEC, HUNDRED_Y) if store else None,
@@ -212,7 +217,9 @@ def h07_e2e(S, backend="mem"):
             # another job that happens to carry the same explicit id, on another queue, with other arguments
             await mb.queue_declare("q_2")
             await Job("other-job", queue="q_2", id_="id-1_A", args={"other": True}, _connection=conn).enqueue()
-        delayed = deferred or has_by
+        delayed = sent[2].compute_next_execution_time is not None     # decided on concrete/symbolic values: a past deferred_until alone delays nothing
+        if not isinstance(delayed, bool):
+            delayed = bool(delayed)
         cat = MessageCategory.DELAYED if delayed else MessageCategory.NORMAL
         cons = mb.get_consumer("q_1", ["my-job_1"], None, cat)
         if backend == "redis":
@@ -221,6 +228,12 @@ def h07_e2e(S, backend="mem"):
         else:
             await cons.start()
             got = await try_consume(cons, timeout=1)
+        if got is None and delayed and backend == "rabbit":
+            # a delay below RabbitMQ's millisecond resolution is over at once: the message is in the main queue already
+            await cons.finish()
+            cons = mb.get_consumer("q_1", ["my-job_1"], None, MessageCategory.NORMAL)
+            await cons.start()
+            got = await try_consume(cons, timeout=2)
         out["sent"], out["got"] = sent, got
         if got is not None:
             out["payload"] = await _Processor(conn).get_payload(got[1])
@@ -252,6 +265,14 @@ def h07_e2e(S, backend="mem"):
         S.check("payload-carries-every-field-of-the-model", json.loads(out["payload"]) == json.loads(value.model_dump_json()),
                 info=f"{out['payload']!r} vs {value.model_dump_json()!r}")
     same(S, "parameters", sent[2], got[2])
+    # ... and they are the job's settings, stated independently of how Job builds them
+    st, gp = out["settings"], got[2]
+    S.check("parameters-carry-the-jobs-settings",
+            all_of(gp.delay.delay_until == st["deferred_until"] if st["deferred_until"] is not None else gp.delay.delay_until is None,
+                   gp.delay.defer_by == st["deferred_by"] if st["deferred_by"] is not None else gp.delay.defer_by is None,
+                   gp.retries.max_amount == st["retries"], gp.execution_timeout == st["timeout"],
+                   gp.ttl == st["ttl"] if st["ttl"] is not None else gp.ttl is None),
+            info=f"received delay={gp.delay!r} retries={gp.retries!r} timeout={gp.execution_timeout!r} ttl={gp.ttl!r}")
     if out["again"] is not None:
         want, again = out["again"]
         S.cover("requeued-with-another-payload")
